@@ -21,6 +21,12 @@ class Case:
         self.label, self.make_env, self.check, self.loops, self.on_yield = label, make_env, check, loops or {}, on_yield
 
 
+def deep():
+    """True in the thorough tier: contracts then add further enumerated cases (more indeterminates, higher arities)"""
+    import os
+    return os.environ.get("VERIF_DEEP") == "1"
+
+
 class Contract:
     name = ""          # qualified public name, e.g. "numpoly.glexsort"
     relpath = ""       # file under /repo
